@@ -273,3 +273,66 @@ def disk_tree(rng, max_entries=30, max_depth=5, types=("dir", "file", "symlink",
                 e["x"] = sorted(xs)
         out.append(e)
     return out
+
+
+def mutate_disk_tree(rng, tree, n_edits=None):
+    """edit script over a disk tree description: returns a new valid (parents-first) description"""
+    from .core import hx
+    ents = [dict(e) for e in tree]
+    n = rng.randint(0, 5) if n_edits is None else n_edits
+    for _ in range(n):
+        if not ents:
+            break
+        k = rng.randrange(len(ents))
+        e = ents[k]
+        op = rng.randrange(9)
+        p = e["p"]
+        if op == 0 and e["t"] != "hardlink":
+            e["mt"] = rng.choice(MTIMES[:4])
+        elif op == 1 and e["t"] not in ("hardlink", "symlink"):
+            e["mode"] = rng.choice([0o755, 0o644, 0o700, 0o4711, 0o1777 if e["t"] == "dir" else 0o600])
+        elif op == 2 and e["t"] != "hardlink":
+            e["uid"] = rng.choice([0, 1000])
+            e["gid"] = rng.choice([0, 1000])
+        elif op == 3 and e["t"] == "file":
+            e["size"] = rng.choice([0, 1, 5, 100, 32768, 32769, 70000])
+            e["mt"] = rng.choice(MTIMES[:4])
+        elif op == 4:   # delete subtree (+ hard links into it)
+            gone = {x["p"] for x in ents if x["p"] == p or x["p"].startswith(p + "2f")}
+            ents = [x for x in ents if x["p"] not in gone and not (x["t"] == "hardlink" and x.get("ln") in gone)]
+        elif op == 5:   # type swap
+            gone = {x["p"] for x in ents if x["p"].startswith(p + "2f")} | {p}
+            ents = [x for x in ents if x["p"] not in gone - {p} and not (x["t"] == "hardlink" and x.get("ln") in gone)]
+            for i, x in enumerate(ents):
+                if x["p"] == p:
+                    nt = rng.choice([t for t in ("dir", "file", "symlink", "fifo") if t != x["t"]])
+                    ne = {"p": p, "t": nt, "uid": x["uid"] if "uid" in x else 0, "gid": x.get("gid", 0), "mt": rng.choice(MTIMES[:4]),
+                          "mode": 0o755 if nt == "dir" else 0o644}
+                    if nt == "file":
+                        ne["size"] = rng.choice([0, 3, 100])
+                    if nt == "symlink":
+                        ne["ln"] = hx(rng.choice([b"a", b"../x"]))
+                    ents[i] = ne
+        elif op == 6:   # add
+            base = bytes.fromhex(p)
+            if e["t"] == "dir":
+                np = base + b"/" + name(rng, False)
+            else:
+                np = base + rng.choice([b"-", b".", b"0", b" x", b"z", b"!"])
+            if hx(np) not in {x["p"] for x in ents} and b"/" not in np[len(base) + 1:] and len(np.split(b"/")[-1]) <= 255:
+                nt = rng.choice(["file", "file", "dir", "symlink"])
+                ne = {"p": hx(np), "t": nt, "uid": 0, "gid": 0, "mt": rng.choice(MTIMES[:4]), "mode": 0o755 if nt == "dir" else 0o644}
+                if nt == "file":
+                    ne["size"] = rng.choice([0, 3, 100, 40000])
+                if nt == "symlink":
+                    ne["ln"] = hx(b"a")
+                ents.append(ne)
+        elif op == 7 and e["t"] in ("chr", "blk"):
+            e["min"] = rng.choice([0, 3, 5, 7])
+        elif op == 8 and e["t"] == "file":   # hard-link regroup: turn into a link of an earlier file
+            cands = [x for x in ents if x["t"] == "file" and pathkey(bytes.fromhex(x["p"])) < pathkey(bytes.fromhex(p))]
+            if cands and not any(x.get("ln") == p and x["t"] == "hardlink" for x in ents):
+                src = rng.choice(cands)
+                ents[k] = {"p": p, "t": "hardlink", "ln": src["p"]}
+    ents.sort(key=lambda x: pathkey(bytes.fromhex(x["p"])))
+    return ents
